@@ -36,6 +36,20 @@ checks.update({
  "C19": ("generator-knowledge oracle (databases of all measurements at any depth, INTO database) over RequiredPrivileges of all statement kinds", "3.C19",
          "All clause subsets of all 44 kinds (non-empty list, no error, admin flag for administrative kinds); SELECT / EXPLAIN with subqueries to depth 5 and every INTO form (read on every source database, write on the target).", "distinct database names per slot"),
 })
+checks.update({
+ "C04": ("panic / fatal-error observer in child processes with per-input journals + scanner hook assertions (push-back depth) + logical-time step budget (scanner steps per input rune) over mutated, random and structured-stress inputs", "3.C04",
+         "Grammar-derived inputs with 1-4 mutations, random bytes, token soups, parameter maps of every bindable and unbindable kind, nesting/list/token stress; every input through ParseQuery, ParseStatement and ParseExpr; accepted results printed, walked and rewritten. Hangs and super-linear scanning are decided by the step budget, not wall-clock.", "hook counters in the scanner (tag verif); inputs up to 1 MB / depth 1e5; the 2e6-deep nesting stack overflow is a recorded known finding"),
+ "C07": ("token-level template oracle: bound-parameter parse vs parse of the literal-written form (harness quoting), structure check for inexpressible values, must-error variants", "3.C07",
+         "Templates from all statement kinds with 1-3 placeholders in every name / literal / regex / duration / count position; benign and hostile values of every Go/JSON kind; unbound, unbindable and empty placeholders must fail.", "literal form rendered by the harness's own quoting"),
+ "C10": ("reference point-evaluator monitor: original condition vs (in-range AND residual) on boundary points; exact bound comparison", "3.C10",
+         "Random conjunction trees of time bounds (every literal form, either side, any case, three zones, int64 extremes) and other predicates, evaluated on every bound +-1ns x all tag/field combinations.", "harness evaluator is the meaning of the condition; float bounds and != outside the domain"),
+ "C12": ("independent schema-expansion model vs RewriteFields, with repeated calls over fresh (re-randomised) maps for determinism", "3.C12",
+         "Random schemas (conflicting types, shadowing tags, empty/unknown measurements, subqueries to depth 3) x SELECTs with wildcards / regexes in field, call-argument and dimension position; names, types, order, positions, aliases of expanded calls, typed references; 12 repeats each.", "model written from the property text; measurement with tags has at least one field"),
+ "C17": ("Go race detector (-race build, GORACE logs of a child) + sequential-twin functional oracle + in-flight overlap matrix over shared-AST operations", "3.C17",
+         "Rounds of 64 goroutines on 16 cores: read-only operations on 6 shared ASTs and independent parse / quote / format / sanitize calls; every result equals its sequential twin; every pair of shared operation kinds was observed in flight together (floor).", "race detector reports accesses unordered in observed runs; interleavings are those the scheduler produced"),
+ "C18": ("history monitor over SetTimeRange call sequences observed through ConditionExpr with the reference point-evaluator", "3.C18",
+         "Initial conditions with time bounds on either side / any case / now()-relative, top-level OR, none; 1-8 windows (CQ-style, random, repeated, empty, sub-second, extremes); exact range, exactly two time comparisons, constant node count, point agreement after every call.", "observation through ConditionExpr as the property prescribes"),
+})
 pending = {}
 order = ["C%02d"%i for i in range(1,21)]
 extra = json.load(open('/verif/tools/manifest_extra.json')) if os.path.exists('/verif/tools/manifest_extra.json') else {}
